@@ -7,3 +7,4 @@ pub mod cam;
 pub mod reference;
 
 pub use runner::{Fail, Harness, Obs, PropResult, Tier};
+pub mod refgraph;
